@@ -365,9 +365,11 @@ VEX_REG_CLASSES = {"rvm": (0x72, 0x75), "rm": (0x68, 0x6B), "rvmi": (0x7A, 0x7C)
                    # X86Arith `op r8, imm8` (80 /d ib)
                    "larithi8": (0x19,),
                    # X86Push / X86Pop with a general-purpose register: the short `50+r` / `58+r` forms (register in the opcode byte)
-                   "lopreg": (0x33, 0x35)}
+                   "lopreg": (0x33, 0x35),
+                   # X86Arith `op reg, r/m` direction (opcode + 2), used by the class for a memory source
+                   "larithrm": (0x19,)}
 SHAPE_ROLES = {"rvm": ["reg", "vvvv", "rm"], "rm": ["reg", "rm"], "rvmi": ["reg", "vvvv", "rm", "imm"], "rmi": ["reg", "rm", "imm"],
-               "lrm": ["reg", "rm"], "lmr": ["rm", "reg"], "lrmi": ["reg", "rm", "imm"], "lop": None, "larith": ["rm", "reg"], "lrot": ["rm", "imm"], "larithi8": ["rm", "imm"], "lopreg": ["opc"]}
+               "lrm": ["reg", "rm"], "lmr": ["rm", "reg"], "lrmi": ["reg", "rm", "imm"], "lop": None, "larith": ["rm", "reg"], "lrot": ["rm", "imm"], "larithi8": ["rm", "imm"], "lopreg": ["opc"], "larithrm": ["reg", "rm"]}
 
 
 def class_rows_lean(kept, rows, chunk=96):
@@ -405,7 +407,7 @@ def class_rows_lean(kept, rows, chunk=96):
                     if o["imm"] != 8:
                         okf = False
                     continue
-                if o["reg"] not in CLASS or (len(CLASS[o["reg"]]) != 1 and shape not in ("larith", "lrot", "larithi8")) or o["implicit"]:
+                if o["reg"] not in CLASS or (len(CLASS[o["reg"]]) != 1 and shape not in ("larith", "lrot", "larithi8", "larithrm")) or o["implicit"]:
                     okf = False
                     break
                 kinds.append(CLASS[o["reg"]])
